@@ -105,6 +105,8 @@ pub fn template_programs() -> Vec<(String, Flags)> {
         "({L})(?<=\\1{I})!", "(?<=({L}){I})\\1?!", "(?<=\\1({L}))!",
         // loops around literals next to lookarounds
         "(?:{L}{I})+!", "(?:{L}){2}{I}!", "(?<=(?:{L}){2}{I})!",
+        // the literal itself inside a lookaround nested in a lookaround of the other / same direction
+        "(?<=-(?={L}))", "(?<=-(?!{L}))-?", "(?<=(?={L})-)", "(?<=-(?={L}{I}))", "(?=(?<={L})!)", "(?=-(?<=-{L}-))", "(?<=(?<={L})-)", "(?<=(?=(?<=-){L}))", "(?<!-(?={L}))-?", "(?=(?=(?<={L}))!)", "(?<=-(?=(?:{L}|-)!))",
     ];
     let mut v = Vec::new();
     for sk in skeletons {
@@ -138,8 +140,8 @@ pub fn template_haystacks() -> Vec<String> {
     let mut v = Vec::new();
     for l in ["a", "ab", "abc", "abcdefghijklmnopq", "abcdefghijklmnopqrstuvwxyz0123456", "k", "K", "\u{212A}", "é", "É", "aé\u{10000}b", "kKs", "abcdefghijklmnopqr", "aé", "1\u{FE0F}\u{20E3}"] {
         let l = l.replace("\\u{212A}", "\u{212A}").replace("\\u{10000}", "\u{10000}").replace("\\u{FE0F}", "\u{FE0F}").replace("\\u{20E3}", "\u{20E3}");
-        for pre in ["", "b", "x"] {
-            for post in ["!", "!!", "b!", "c!", ""] {
+        for pre in ["", "b", "x", "-"] {
+            for post in ["!", "!!", "b!", "c!", "", "-", "-!"] {
                 v.push(format!("{}{}{}", pre, l, post));
                 v.push(format!("{}{}{}{}", pre, l, l, post));
             }
